@@ -1,5 +1,6 @@
 """C06 — search results are sound (ranking kernels, oversampling, heap; tombstone filter skeleton)."""
 from vlib.mo import *
+import re
 from vlib.runner import KH, run_kani_group, run_mir_obligations
 
 LEVEL = "other"
@@ -81,6 +82,40 @@ def _timed_filtered(F):
 HB = "hnsw_backend::HnswBackend::"
 T = "tiered_engine::TieredEngine::"
 PUSH = call(r"= Vec::<(hnsw_index::)?SearchResult>::push\(", name="mapped.push")
+def merge_dedup_complete(F):
+    """merge_knn_results must remove EVERY duplicate id, not only adjacent ones.  Vec::dedup* removes consecutive duplicates only:
+    it is complete only if the vector was sorted by the SAME key just before.  Decided: if the function de-duplicates with a
+    `dedup*` call, the last sort before it must order by the document id (a `sort_by` whose comparator compares f32 distances
+    does not bring equal ids together)."""
+    import vlib.mir as _M
+    fc = FnCheck(F, T + "merge_knn_results")
+    if fc.fn is None:
+        return [fc.missing()]
+    fn = fc.fn
+    ded = [b for b in fn.blocks.values() if not b.cleanup and b.kind == "call" and re.search(r"::dedup(_by|_by_key)?(::<.*>)?$", (b.callee or ""))]
+    if not ded:
+        return [Result("holds", "no Vec::dedup* in merge_knn_results (duplicates are removed through a map)", sample={"fn": fc.name, "kind": "COUNT", "dedup_calls": 0})]
+    sorts = [b for b in fn.blocks.values() if not b.cleanup and b.kind == "call" and re.search(r"::sort(_unstable)?(_by|_by_key|_by_cached_key)?(::<.*>)?$", (b.callee or ""))]
+    by_float = []
+    for sb in sorts:
+        m = re.search(r"\{closure@([^}]*)\}", sb.callee or "")
+        float_cmp = False
+        if m:
+            for name, f2 in F.items():
+                if "merge_knn_results::{closure" in name:
+                    txt = " ".join((b.callee or "") for b in f2.blocks.values() if b.kind == "call")
+                    if re.search(r"<f32 as PartialOrd>::partial_cmp|f32>::total_cmp", txt):
+                        float_cmp = True
+        if float_cmp or re.search(r"sort(_unstable)?_by::<", sb.callee or ""):
+            by_float.append(sb.idx)
+    r = fc.reachable(call(r"::dedup", name="Vec::dedup*"))
+    if sorts and len(by_float) == len(sorts):
+        return [Result("violated", "merge_knn_results removes duplicates with Vec::dedup* after sorting by DISTANCE only: a document that is a candidate from both tiers survives twice whenever another "
+                       "candidate sorts between its two copies (equal or interleaved distances), and pushes a legitimate result out of the top k", queries=r.queries, seconds=r.seconds,
+                       sample={"fn": fc.name, "kind": "PRECEDES", "A": "sort by doc_id", "B": "Vec::dedup*", "sorts_by_distance": ["bb%d" % i for i in by_float]})]
+    return [Result("inconclusive", "merge_knn_results de-duplicates with Vec::dedup*; the preceding sort key was not recognised", queries=r.queries, seconds=r.seconds)]
+
+
 MOS = [
     MO("O6.6/tombstone_filter", "knn_search_with_ef_cancel: a result is emitted only for an internal id that maps to Some(Some(external id)) (tombstones and out-of-range ids skipped), under the doc_store read lock, and at most k results",
        allof(only_via(HB + "knn_search_with_ef_cancel", PUSH, Arm(r"^discr\(call core::slice::<impl \[Option<u64>\]>::get::<usize>\)$", {"1"}, name="internal id in range")),
@@ -89,6 +124,8 @@ MOS = [
              follows(HB + "knn_search_with_ef_cancel", PUSH, anyev(r"^_\d+ = Ge\(move _\d+, copy _3\);$|= Vec::<(hnsw_index::)?SearchResult>::len\(", name="mapped.len() >= k test"), exit="ok"),
              precedes(HB + "knn_search_with_ef_cancel", call(r"= (hnsw_backend::)?compute_search_k\(", name="compute_search_k"), call(r"= HnswVectorIndex::knn_search_with_ef_cancel\(", name="index search"))),
        functions=[("hnsw_backend.rs", "knn_search_with_ef_cancel")]),
+    MO("O6.6/merge_dedup", "merge_knn_results: duplicates are removed completely — through a map, or by a dedup* that follows a sort by the same key (never a dedup* after a sort by distance)",
+       merge_dedup_complete, functions=[("tiered_engine.rs", "merge_knn_results")]),
     MO("O6.6/merge", "merge_knn_results: dedup map filled from the hot results first (hot wins via or_insert for cold), then sorted by distance, then truncated to k",
        allof(never(T + "merge_knn_results", call(r"= hash_map::Entry::<'_, u64, f32>::or_insert\(", name="entry(cold).or_insert"), frm=call(r"sort_by::<", name="sort_by distance")),
              never(T + "merge_knn_results", call(r"= HashMap::<u64, f32>::insert\(", name="map.insert(hot)"), frm=call(r"sort_by::<", name="sort_by distance")),
